@@ -11,7 +11,7 @@ RULE = ("hyp: sequences of all composition classes up to 60 (quick) / 150 (thoro
         "the 190 unordered residue pairs as two singleton groups on seed-chosen sequences. Oracle: Omega == kappa of the two-letter "
         "recoding == kappa_X(PEDKR) == reference kappa of the recoded pattern; kappa == kappa_X(ED, KR); swap/order/case/container "
         "invariance; one group == its complement; invalid group raises; Omega_sequence is X at P/E/D/K/R and O elsewhere. "
-        "omega cases may present the sequence as pasted text (blocks of ten, wrapped, padded, lower case); long-neighbours: compositions of one length 101..160 differing by one residue analysed in one process (kappa == kappa_X(ED,KR) == kappa_X(KR,ED) == reference); history cases ask 2-5 related groupings (all splits of subsets of a pool of <=5 residues, interleaved with kappa/Omega) of the SAME object and compare each answer with a fresh object. Non-trivial: both recoded classes present and kappa != -1; distinct by (sequence, groups).")
+        "omega cases may present the sequence as pasted text (blocks of ten, wrapped, padded, lower case); long-neighbours: compositions of one length 101..160 differing by one residue analysed in one process (kappa == kappa_X(ED,KR) == kappa_X(KR,ED) == reference); history cases ask 2-5 related groupings (all splits of subsets of a pool of <=5 residues, interleaved with kappa/Omega) of the SAME object and compare each answer with a fresh object. Non-trivial: both recoded classes present and kappa != -1; distinct by (sequence, groups). A quarter of the omega cases also check kappa = kappa_X(ED,KR) = fresh kappa on a shuffled child made after the parent answered get_kappa (library PRNG on the harness's tape); one omega case in six starts from an arrangement whose own delta beats the documented delta-max. In the generated parts one clean word in eight is handed to the constructor as SeqObj=Sequence(lower/mixed-case text) instead of as a string (same object expected).")
 ASSUMPTIONS = ["overlapping groups are outside the domain (which group wins is undocumented; the swap law is false for them by construction)",
                "reference kappa of a recoded pattern is ref.kappa_from(exact delta, documented-family maximum); KF-1 (kappa>1.1) applies to "
                "recoded sequences as well and does not affect these equalities",
